@@ -42,6 +42,10 @@ type Entry struct {
 	Cost int
 	// Group for native fuzz targets and reporting.
 	Group string
+	// Moduli are entry-specific moduli (big-endian) whose boundary values the slot sweep writes into the
+	// integer slots of the valid encodings, in addition to the package-level constants of slots.go
+	// (e.g. the RSA modulus of the key the entry works with).
+	Moduli [][]byte
 }
 
 func sortedRegistry(registry []Entry) []Entry {
@@ -257,7 +261,28 @@ func Run(t *testing.T, registry []Entry) {
 // and 1..16 appended bytes of its valid encodings, plus every single-byte
 // value at length 1 — a deterministic enumeration that does not depend on the
 // generator's luck.
+//
+// It then overwrites the fixed-width integer slots of every valid encoding
+// (also of the entries with a documented fixed length: the length is kept)
+// with the moduli / group orders of the package's arithmetic and their
+// neighbours (slots.go).
 func Sweep(t *testing.T, registry []Entry) {
+	defer vlib.Done()
+	PrefixSweep(t, registry)
+	total := 0
+	for ei, e := range sortedRegistry(registry) {
+		e := e
+		if ei%vlib.NShards != vlib.Shard {
+			continue
+		}
+		total += slotSweep(&directTB{t: t}, &e)
+	}
+	vlib.Exhaustive("c10-slot-boundary-values", int64(total),
+		"every slot position (k·w, 1+k·w from the start, k·w from the end and after length fields; capped per encoding in quick) of the valid encodings × {m-1, m, m+1, 2m} × {big, little endian} × free top-bit flag combinations, m over the moduli and group orders of slots.go (all families at the first/last slot, the entry's own families at every slot) and the entry's own moduli; packed-coefficient patterns q-1, q, q+1 for Kyber/Dilithium encodings")
+}
+
+// PrefixSweep is the truncation / extension part of Sweep.
+func PrefixSweep(t *testing.T, registry []Entry) {
 	defer vlib.Done()
 	for ei, e := range sortedRegistry(registry) {
 		e := e
